@@ -105,6 +105,7 @@ type History struct {
 	BootErr         string
 	Credited        map[string]int64    // "supi|rg" -> initial + top-ups
 	FinalMem        map[string][]MemRec // in-memory records per subscriber at quiescence
+	FTP             []FTPEvent          // what the billing domain's FTP server saw (Cfg.Cgf)
 }
 
 type sessBinding struct {
@@ -278,6 +279,9 @@ func Run(sc *Scenario) *History {
 	h.Journal = rt.Journal()
 	h.Notifs = w.NotifsCopy()
 	h.Fired = w.Net.Fired()
+	if w.FTP != nil {
+		h.FTP = w.FTP.Events()
+	}
 	h.Tasks = rt.End()
 	w.Close()
 	time.Sleep(time.Millisecond) // let closed connections unwind
@@ -532,6 +536,14 @@ func (r *runner) execOp(t *rt.Task, op *Op) *OpResult {
 	case "sleep":
 		res.StartNs = rt.Now()
 		time.Sleep(time.Duration(op.SleepNs))
+		res.EndNs, res.Done = rt.Now(), true
+		return res
+	case "ftprestart":
+		// the billing domain's FTP server restarts: every control connection is reset
+		res.StartNs = rt.Now()
+		if r.w.FTP != nil {
+			r.w.FTP.Restart()
+		}
 		res.EndNs, res.Done = rt.Now(), true
 		return res
 	case "ctrset":
@@ -794,6 +806,9 @@ func (h *History) Fingerprint() string {
 	})
 	for _, m := range msgs {
 		w("msg c%d %s t%d op%d toc=%v cmd=%d req=%v sent=%d del=%d fault=%s len=%d\n", m.ConnOrd, m.Peer, m.Task, m.Op, m.ToClient, m.Cmd, m.Request, m.SentAt, m.DeliverAt, m.Fault, len(m.Raw))
+	}
+	for _, e := range h.FTP {
+		w("ftp %d s%d %s %s %d %x\n", e.At, e.Sess, e.What, e.Name, e.Size, e.Sum)
 	}
 	for _, j := range h.Journal {
 		s := sha256.Sum256(j.Data)
